@@ -192,7 +192,7 @@ PROPS = {
                        "and SIGTERM / SIGKILL restarts; bodies from a boundary-size table (0 ... 1 MiB+1, 5 MiB parts), keys built from URL-reserved "
                        "and multi-byte characters, deep nesting and 255-byte segments. After every acknowledged upload each read through any "
                        "process must return exactly the model's bytes, length, ETag (MD5 / multipart ETag), headers, metadata, tags, checksums. The final sweep reads every key's tag set as well (tags must survive copies with either directive). (D) directory objects: successive PUTs of one with different user metadata - HEAD / GET show exactly the last one's. Metadata names come from a small pool half of the time; a third of the multipart uploads carry a FULL_OBJECT checksum; copies may ask for a checksum; content headers the last write did not supply must be absent. One upload in eight states a Content-MD5 of other content: it must be refused and the key (bytes, headers, metadata, tags) reads at once exactly as before."),
-        "level_note": "Multipart uploads use part numbers that need not start at 1 nor be contiguous; user metadata values may be empty; a CopyObject answered NoSuchKey for a key HEAD finds is a violation. an upload that is refused is 'not acknowledged' and only counted; Content-Encoding of aws-chunked uploads and the ETag of a copied multipart object are not judged. Open finding C01-sidecar-stale-attributes narrows the attribute comparison for overwritten keys in sidecar mode to 'supplied attributes are present'. Exploration only.",
+        "level_note": "Multipart uploads use part numbers that need not start at 1 nor be contiguous; user metadata values may be empty; a CopyObject answered NoSuchKey for a key HEAD finds is a violation. an upload that the gateway refuses unasked is 'not acknowledged' and counted (the reads that follow check that the key is as before); one upload in eight is made to be refused (wrong Content-MD5) and followed by an immediate read; Content-Encoding of aws-chunked uploads and the ETag of a copied multipart object are not judged. The former finding C01-sidecar-stale-attributes is repaired: attributes of overwritten keys are compared in full on both metadata stores. Exploration only.",
         "rule": ("case = (config, nproc, keys, ops). Non-trivial: the program reads an acknowledged object through a different process than the one that "
                  "acknowledged it, or after a restart, or the key contains URL-reserved characters; distinct by the full case."),
         "assumptions": ["real processes on loopback TCP, unprivileged uid", "time.Now() only for signing dates"],
